@@ -1,15 +1,76 @@
 (** C14 — how pint builds the partitionLocker key and the cache keys of a question
-    (promapi/query.go, range.go, config.go, flags.go, metadata.go).  The cache key is modelled as the tuple
-    of strings that is hashed (after the server URI), i.e. xxhash is treated as injective.  Definitions only. *)
-From Coq Require Import List String.
+    (promapi/query.go, range.go, config.go, flags.go, metadata.go).
+
+    The key construction is NOT hand-written here: [Gen.C14.key_table] is regenerated from the Go AST on every run
+    (translator/ext_C14.go): per API method the parts of the lock key it takes and the parts hashed into the cache
+    key of the requests it enqueues; a part is a string literal or a variable (a parameter of the call, the server
+    URI, the start/end of a slice).  This file interprets such a table ([lock_str], [cache_val]) and gives the
+    decidable criterion [table_ok] under which the lock key determines the cache keys.  The cache key is modelled as
+    the list of hashed strings, i.e. xxhash is treated as injective.  Definitions only. *)
+From Coq Require Import List String Bool.
+From PintV Require Import Common.Bytes.
+From PintV Require Gen.C14.
 Import ListNotations.
 Local Open Scope string_scope.
 
-Definition path_query := "/api/v1/query".
-Definition path_range := "/api/v1/query_range".
-Definition path_config := "/api/v1/status/config".
-Definition path_flags := "/api/v1/status/flags".
-Definition path_metadata := "/api/v1/metadata".
+(** a key part: (true, literal) or (false, variable name) *)
+Definition comp := (bool * string)%type.
+
+Record key_row := mk_row { kr_kind : string; kr_sep : string; kr_lock : list comp; kr_cache : list comp }.
+
+Definition row_of (t : string * string * list comp * list comp) : key_row :=
+  let '(k, sep, l, c) := t in mk_row k sep l c.
+
+(** the table of the current source tree *)
+Definition key_table : list key_row := map row_of Gen.C14.key_table.
+
+(** the variables whose value differs between the slices of ONE range question *)
+Definition slice_vars : list string := ["slice_start"; "slice_end"].
+
+Definition env := string -> string.
+
+Definition cval (e : env) (c : comp) : string := if fst c then snd c else e (snd c).
+
+(** prom.locker.lock(key): the parts joined by the separator ("a" + b  has separator "") *)
+Definition lock_str (r : key_row) (e : env) : string := String.concat (kr_sep r) (map (cval e) (kr_lock r)).
+
+(** querier.CacheKey(): the hashed strings *)
+Definition cache_val (r : key_row) (e : env) : list string := map (cval e) (kr_cache r).
+
+(* ---- the criterion ---------------------------------------------------------------------------- *)
+
+Definition comp_eqb (a b : comp) : bool := Bool.eqb (fst a) (fst b) && String.eqb (snd a) (snd b).
+
+Fixpoint comps_eqb (a b : list comp) : bool :=
+  match a, b with
+  | [], [] => true
+  | x :: a', y :: b' => comp_eqb x y && comps_eqb a' b'
+  | _, _ => false
+  end.
+
+(** two hashed lists can never be equal: different lengths, or different literals at the same position *)
+Fixpoint lits_differ (a b : list comp) : bool :=
+  match a, b with
+  | [], [] => false
+  | [], _ :: _ | _ :: _, [] => true
+  | x :: a', y :: b' => (fst x && fst y && negb (String.eqb (snd x) (snd y))) || lits_differ a' b'
+  end.
+
+Definition vars_of (l : list comp) : list string := map snd (filter (fun c => negb (fst c)) l).
+
+(** every variable of the lock key is hashed into the cache key, and the lock key does not depend on the slice *)
+Definition row_ok (r : key_row) : bool :=
+  forallb (fun v => mem_str v (vars_of (kr_cache r)) && negb (mem_str v slice_vars)) (vars_of (kr_lock r)).
+
+Definition same_row (r1 r2 : key_row) : bool :=
+  String.eqb (kr_sep r1) (kr_sep r2) && comps_eqb (kr_lock r1) (kr_lock r2) && comps_eqb (kr_cache r1) (kr_cache r2).
+
+Definition pair_ok (r1 r2 : key_row) : bool :=
+  lits_differ (kr_cache r1) (kr_cache r2) || (same_row r1 r2 && row_ok r1).
+
+Definition table_ok (t : list key_row) : bool := forallb (fun r1 => forallb (pair_ok r1) t) t.
+
+(* ---- questions (the harness' key table speaks about these) ------------------------------------- *)
 
 Inductive question :=
 | QInstant (expr : string)
@@ -18,31 +79,40 @@ Inductive question :=
 | QMetadata (metric : string)
 | QRange (expr lookback step : string).      (* lookback/step as printed by output.HumanizeDuration *)
 
-(** prom.locker.lock(key) *)
+Definition q_kind (q : question) : string :=
+  match q with QInstant _ => "query" | QConfig => "config" | QFlags => "flags" | QMetadata _ => "metadata" | QRange _ _ _ => "range" end.
+
+(** the values of the variables the translator knows about, for a question asked of server "uri" *)
+Definition q_env (q : question) : env := fun v =>
+  if String.eqb v "uri" then "uri" else
+  match q with
+  | QInstant e => if String.eqb v "expr" then e else ""
+  | QMetadata m => if String.eqb v "metric" then m else ""
+  | QRange e lb st =>
+      if String.eqb v "expr" then e
+      else if String.eqb v "humanize(params.Step())" then st
+      else if String.eqb v "humanize(params.Dur())" then lb
+      else if String.eqb v "params.String()" then lb ++ "/" ++ st
+      else ""
+  | _ => ""
+  end.
+
+Definition find_row (k : string) (t : list key_row) : option key_row := find (fun r => String.eqb (kr_kind r) k) t.
+
+(** the lock key the current source takes for a question *)
 Definition lock_key (q : question) : string :=
-  match q with
-  | QInstant e => path_query ++ e
-  | QConfig => path_config
-  | QFlags => path_flags
-  | QMetadata m => path_metadata ++ m
-  | QRange e lb st => path_range ++ "/" ++ e ++ "/" ++ lb ++ "/" ++ st
+  match find_row (q_kind q) key_table with
+  | Some r => lock_str r (q_env q)
+  | None => ""
   end.
 
-(** The repaired key of notes/candidate-fixes/C14-range-lock-key.patch. *)
-Definition lock_key_fixed (q : question) : string :=
-  match q with
-  | QRange e lb st => path_range ++ "/" ++ e ++ "/" ++ st
-  | _ => lock_key q
-  end.
+(** an environment with the slice-dependent variables set *)
+Definition with_slice (e : env) (sl : string * string) : env := fun v =>
+  if String.eqb v "slice_start" then fst sl else if String.eqb v "slice_end" then snd sl else e v.
 
-(** querier.CacheKey(): the hashed components; a range question has one per slice (start, end as formatted). *)
-Definition cache_keys (q : question) (slices : list (string * string)) : list (list string) :=
-  match q with
-  | QInstant e => [[path_query; e]]
-  | QConfig => [[path_config]]
-  | QFlags => [[path_flags]]
-  | QMetadata m => [[path_metadata; m]]
-  | QRange e _ st => map (fun s => [path_range; e; fst s; snd s; st]) slices
-  end.
-
-Definition is_range (q : question) : bool := match q with QRange _ _ _ => true | _ => false end.
+(* ---- historical table (before fix fb76e32): the range lock key was path/expr/params.String(), i.e. it
+        contained the lookback, which no slice's cache key contains.  Only for the refutation theorem. *)
+Definition key_table_prefix : list key_row :=
+  map (fun r => if String.eqb (kr_kind r) "range"
+                then mk_row "range" "/" [(true, "/api/v1/query_range"); (false, "expr"); (false, "params.String()")] (kr_cache r)
+                else r) key_table.
